@@ -43,6 +43,98 @@ int main(int argc, char** argv)
                   << ",\"iters\":" << g.numberOfIterations() << ",\"max\":" << mx << "}" << std::endl;
         return 0;
     }
+    if (mode == "operators") {
+        // argv[2] = output file (all operator outputs concatenated), rest = CLI options; every operator of the finest level and the
+        // transfers between level 0 and 1 is applied once to fixed pseudo-random vectors
+        std::vector<char*> av = {argv[0]};
+        for (int i = 3; i < argc; i++)
+            av.push_back(argv[i]);
+        GMGPolar g;
+        g.setParameters((int)av.size(), av.data());
+        g.verbose(0);
+        g.setup();
+        using A   = GMGPolarVerifAccess;
+        auto& lv  = A::levels(g);
+        auto& ip  = A::interp(g);
+        int N = lv[0].grid().numberOfNodes(), M = lv[1].grid().numberOfNodes();
+        std::mt19937 gen(11);
+        std::uniform_real_distribution<double> U(-1, 1);
+        Vector<double> xf(N), ff(N), xc(M);
+        for (int i = 0; i < N; i++) {
+            xf[i] = U(gen);
+            ff[i] = U(gen);
+        }
+        for (int i = 0; i < M; i++)
+            xc[i] = U(gen);
+        std::ofstream o(argv[2], std::ios::binary);
+        std::cout << "{\"ops\":[";
+        bool first = true;
+        auto emit = [&](const char* name, const Vector<double>& r) {
+            o.write((const char*)r.begin(), r.size() * sizeof(double));
+            std::cout << (first ? "" : ",") << "{\"op\":\"" << name << "\",\"n\":" << r.size() << ",\"hash\":\"" << std::hex
+                      << fnv(r.begin(), r.size() * sizeof(double)) << std::dec << "\"}";
+            first = false;
+        };
+        {
+            Vector<double> r(N);
+            lv[0].computeResidual(r, ff, xf);
+            emit("residual", r);
+        }
+        try { // which smoothers level 0 owns depends on the extrapolation mode
+            Vector<double> x(xf), tmp(N);
+            lv[0].smoothing(x, ff, tmp);
+            emit("smoothing", x);
+        }
+        catch (const std::runtime_error&) {
+        }
+        try {
+            Vector<double> x(xf), tmp(N);
+            lv[0].extrapolatedSmoothing(x, ff, tmp);
+            emit("extrapolatedSmoothing", x);
+        }
+        catch (const std::runtime_error&) {
+        }
+        {
+            Vector<double> x(lv.back().grid().numberOfNodes());
+            for (int i = 0; i < x.size(); i++)
+                x[i] = sin(0.37 * i);
+            lv.back().directSolveInPlace(x);
+            emit("directSolve", x);
+        }
+        {
+            Vector<double> r(N);
+            ip.applyProlongation(lv[1], lv[0], r, xc);
+            emit("prolongation", r);
+            ip.applyExtrapolatedProlongation(lv[1], lv[0], r, xc);
+            emit("extrapolatedProlongation", r);
+            ip.applyFMGInterpolation(lv[1], lv[0], r, xc);
+            emit("FMGInterpolation", r);
+        }
+        {
+            Vector<double> r(M);
+            ip.applyRestriction(lv[0], lv[1], r, xf);
+            emit("restriction", r);
+            ip.applyExtrapolatedRestriction(lv[0], lv[1], r, xf);
+            emit("extrapolatedRestriction", r);
+            for (int i = 0; i < M; i++)
+                r[i] = std::nan("");
+            ip.applyInjection(lv[0], lv[1], r, xf);
+            emit("injection", r);
+        }
+        {
+            Vector<double> r(xf);
+            A::extrapolatedResidual(g, 0, r, xc);
+            emit("extrapolatedResidual", r);
+        }
+        {
+            Vector<double> r(N);
+            A::build_rhs_f(g, lv[0], r);
+            A::discretize_rhs_f(g, lv[0], r);
+            emit("rhs", r);
+        }
+        std::cout << "]}" << std::endl;
+        return 0;
+    }
     if (mode == "kernels") {
         unsigned seed = atoi(argv[2]);
         int threads   = atoi(argv[3]);
